@@ -60,7 +60,8 @@ def run(tier, seed):
             c = np.array(e['counts'][:-1], dtype=np.float64)
             if e['counts'][-1]:
                 ver.add({'wt': e['wt'], 'kind': 'sample_bad_index'}, e)
-            if np.any((p == 0) & (c > 0)):
+            wz = np.array([float(w) == 0.0 for w in e['weights']])
+            if np.any(wz & (c > 0)):
                 ver.add({'wt': e['wt'], 'kind': 'zero_weight_index_returned'}, {'weights': e['weights'][:40]})
             eps = 2.0 ** -52 if e['wt'] != 'f32' else 2.0 ** -22
             fl = S.stage1(c, e['n'], p, eps, with_cum=False)
